@@ -26,10 +26,13 @@ func (l *httpFileSystemLoader) Open(name string) (io.ReadCloser, error) {
 }
 
 // Exists implements Loader.Exists() on top of an http.FileSystem by trying to open the file.
+// Directories do not count as existing templates.
 func (l *httpFileSystemLoader) Exists(name string) bool {
-	if f, err := l.Open(name); err == nil {
-		f.Close()
-		return true
+	f, err := l.fs.Open(name)
+	if err != nil {
+		return false
 	}
-	return false
+	defer f.Close()
+	stat, err := f.Stat()
+	return err == nil && !stat.IsDir()
 }
